@@ -248,4 +248,11 @@ example : cleanObs [(.file, [97], [1]), (.dir, [100], [])] = true
     ∧ (regs (filesOf [(.dir, [100], []), (.file, [97], [1])])).Perm (regs (filesOf [(.file, [97], [1]), (.dir, [100], [])]))
     ∧ ¬ (regs (filesOf [(.file, [97], [2])])).Perm (regs (filesOf [(.file, [97], [1]), (.dir, [100], [])])) := by decide
 
+/-- why the item has to be fixed-width (DESIGN §6 D3): with the pinned framing `sha content ++ path` the concatenation of
+    the items of two files *is* the item of one file with a longer path — for every `sha`, no collision involved.
+    (`corpus/hash/d03-framing.txt` is this witness for the real hasher.) -/
+example (sha : Bytes → Bytes) (p₁ p₂ c₁ c₂ : Bytes) :
+    (sha c₁ ++ p₁) ++ (sha c₂ ++ p₂) = sha c₁ ++ (p₁ ++ sha c₂ ++ p₂) := by
+  simp [List.append_assoc]
+
 end Spok.Props.C04
